@@ -64,7 +64,7 @@ func callerSite() string {
 		// frames of the dependency's container packages (and of this package), nothing else
 		direct := false
 		for _, p := range []string{"github.com/moorara/algo/set.", "github.com/moorara/algo/symboltable.", "github.com/moorara/algo/sort.",
-			"github.com/moorara/algo/generic.", "github.com/moorara/algo/list.", "github.com/gardenbed/emerge/verif/rt.", "iter."} {
+			"github.com/moorara/algo/generic.", "github.com/moorara/algo/list.", "github.com/moorara/algo/grammar.", "github.com/gardenbed/emerge/verif/rt.", "iter."} {
 			if strings.HasPrefix(f.Function, p) {
 				direct = true
 			}
